@@ -27,6 +27,8 @@ def gen(rng, tier):
             "section": b"[" + b"S" * n + b"]\nk=1\n",
             "comment-before": b"#" + b"c" * n + b"\nk=1\n",
             "comment-after": b"k=1 #" + b"c" * n + b"\n",
+            "comment-block": b"# first\n#" + b"c" * n + b"\n# last\nk=1\n",          # a long line inside a block of comment lines
+            "comment-after-block": b"k=1 # t\n#" + b"c" * n + b"\n\nj=2\n",
             "continuation": b"k=a\n  " + b"w" * n + b"\n",
             "quoted": b"k=\"" + b"q" * n + b"\"\n",
         }
@@ -90,13 +92,13 @@ def gen(rng, tier):
 
 def oracle(s, ilines):
     n, field = s.n, s.field
-    if field in ("value", "key", "section", "comment-before", "comment-after", "continuation", "quoted"):
+    if field in ("value", "key", "section", "comment-before", "comment-after", "comment-block", "comment-after-block", "continuation", "quoted"):
         if ilines[0] != "rc=0": return "file with a %d-byte %s refused: %s" % (n, field, ilines[0])
         for idx in (1, 5, 7):
             l = ilines[idx]
             # the longest hex-encoded token must carry all n bytes
             longest = max((len(t) for t in l.replace(";", " ").replace(",", " ").replace("=", " ").split()), default=0)
-            if field in ("comment-before", "comment-after") and idx == 5: continue   # merge keeps comments too, checked via model
+            if field in ("comment-before", "comment-after", "comment-block", "comment-after-block") and idx == 5: continue   # merge keeps comments too, checked via model
             if longest < 2 * n: return "%s of %d bytes came back shorter through `%s`: longest token %d bytes" % (field, n, s.cmds[idx], longest // 2)
     if field == "names-masking":
         if enc(b"ONLY_VENDOR")[1:] in ilines[6]: return "a %d-byte drop-in name no longer masks the same name of the lower layer: %s" % (n, ilines[6][:200])
